@@ -142,8 +142,13 @@ func runC14(r *rt.Run, tier string) {
 	// the default, the corpus' own dictionary size (8 MiB), more, or far too
 	// little (then refusing an xz member is legitimate, wrong data is not)
 	xzTiny := false
-	if k := t.Weighted([]int{4, 2, 2, 2, 1, 2}, "knob.xzdict"); k > 0 {
-		v := []uint32{0, 0, 1 << 23, 1 << 26, 1<<32 - 1, 1 << 16}[k]
+	if k := t.Weighted([]int{4, 2, 2, 2, 1, 2, 2}, "knob.xzdict"); k > 0 {
+		v := []uint32{0, 0, 1 << 23, 1 << 26, 1<<32 - 1, 1 << 16, 0}[k]
+		if k == 6 {
+			// lowered earlier in the process, then reset: zero selects the default again
+			deb.SetXZMaxDict(1 << 16)
+			r.Probe("xz-dictionary-limit-lowered-then-reset")
+		}
 		deb.SetXZMaxDict(v)
 		defer deb.SetXZMaxDict(0)
 		r.Stats[fmt.Sprintf("knob.xzdict=%d", v)]++
@@ -381,5 +386,5 @@ func init() {
 		},
 		Assumptions: []string{"kjk/lzma decodes in its own goroutine: for packages with an lzma member the disk runs in quiet mode (no trace events, no EIO) so that the trace stays deterministic", "tar and gzip writers of the Go stdlib and the zstd/lzma encoders of the third-party modules are trusted to produce valid payloads"},
 	})
-	propProbes["C14"] = []string{"xz-member-refused-under-limit", "xz-dictionary-limit-below-need", "earlier-package-closed-twice", "gzip-member-with-several-streams", "fault-on-extra-member", "loads-interleaved", "via-LoadFile", "loaded-repeatedly", "extra-underscore-member"}
+	propProbes["C14"] = []string{"xz-dictionary-limit-lowered-then-reset", "xz-member-refused-under-limit", "xz-dictionary-limit-below-need", "earlier-package-closed-twice", "gzip-member-with-several-streams", "fault-on-extra-member", "loads-interleaved", "via-LoadFile", "loaded-repeatedly", "extra-underscore-member"}
 }
